@@ -107,7 +107,13 @@ func guard(f func()) (panicked string) {
 			// first dst frame
 			for _, l := range strings.Split(st, "\n") {
 				if strings.Contains(l, "github.com/dave/dst") || strings.Contains(l, "/repo/") {
-					panicked += " @ " + strings.TrimSpace(l)
+					// the frame without its argument words (addresses differ from run to run and would
+					// split one root cause over many violation keys)
+					l = strings.TrimSpace(l)
+					if i := strings.LastIndex(l, "("); i > 0 && strings.HasSuffix(l, ")") {
+						l = l[:i]
+					}
+					panicked += " @ " + l
 					break
 				}
 			}
@@ -132,6 +138,64 @@ func printFile(f *dst.File) (string, error) {
 		return buf.String(), err
 	}
 	return buf.String(), nil
+}
+
+// lateRestorer returns a Restorer whose FileSet already holds an earlier file, so that the next file
+// it restores does not start at position 1 (what happens to every file but the first of a package
+// that is saved, and whenever Restorer.Fset is a pre-existing FileSet).
+func lateRestorer(r *decorator.Restorer) *decorator.Restorer {
+	r.Fset.AddFile("earlier.go", r.Fset.Base(), 4321)
+	return r
+}
+
+// printFileLate prints f through lateRestorer. A property about printed output holds for every
+// position the file may take in a FileSet, so checks print both ways and require equal results.
+func printFileLate(f *dst.File) (string, error) {
+	var buf bytes.Buffer
+	err := lateRestorer(decorator.NewRestorer()).Fprint(&buf, f)
+	return buf.String(), err
+}
+
+const otherFileSrc = "package other\n\n// c\nvar (\n\ta = 1\n\n\tb = `x\ny`\n)\n\nfunc f() {\n\ta()\n\n\t/*\n\t   m\n\t*/\n\tb()\n}\n"
+
+// printFileBeforeAnother restores f, lets the same Restorer restore another file, and only then
+// prints f's ast (a package restored as a whole and printed afterwards).
+func printFileBeforeAnother(f *dst.File) (string, error) {
+	r := decorator.NewRestorer()
+	af, err := r.RestoreFile(f)
+	if err != nil {
+		return "", err
+	}
+	other, err := decorator.Parse(otherFileSrc)
+	if err != nil {
+		panic(err)
+	}
+	if _, err := r.RestoreFile(other); err != nil {
+		panic(err)
+	}
+	var buf bytes.Buffer
+	err = format.Node(&buf, r.Fset, af)
+	return buf.String(), err
+}
+
+// printFileBoth prints f directly, late, and before another file is restored by the same Restorer;
+// differs is non-empty if the prints disagree.
+func printFileBoth(f *dst.File) (out string, err error, differs string) {
+	out, err = printFile(f)
+	if err == nil {
+		early, eerr := printFileBeforeAnother(f)
+		if eerr != nil || early != out {
+			return out, err, fmt.Sprintf("the print changes when the same Restorer restores another file before the first is printed (error: %v)\n%s", eerr, diffDesc(out, early))
+		}
+	}
+	late, lerr := printFileLate(f)
+	if (err == nil) != (lerr == nil) {
+		return out, err, fmt.Sprintf("printed directly: error %v; printed by a Restorer whose FileSet already holds a file: error %v", err, lerr)
+	}
+	if err == nil && late != out {
+		return out, err, "the print depends on the file's position in the restorer's FileSet\n" + diffDesc(out, late)
+	}
+	return out, err, ""
 }
 
 func mustPrint(f *dst.File) string {
